@@ -20,7 +20,7 @@ RULE = ("a real RF24Mesh master and 1..12 RF24MeshNoMaster/RF24Mesh joiners with
 REQUIRED = {"join_result": 60, "address_distinct_and_recorded": 25, "lookup_codes": 150,
             "mesh_send_arrives": 30, "release_and_rejoin": 15, "check_connection": 60,
             "master_table_invariant": 2000}
-BUDGET = {"quick": 240, "thorough": 1800}
+BUDGET = {"quick": 600, "thorough": 2400}
 
 
 def gen_cases(ctx):
